@@ -156,7 +156,8 @@ NDocsSafe == 4
 MethodNames == << [rust |-> "ping", name |-> "Ping"], [rust |-> "get_status", name |-> "GetStatus"],
                   [rust |-> "frob_the_widget", name |-> "FrobTheWidget"], [rust |-> "x", name |-> "X"] >>
 PropNames   == << [rust |-> "alpha", name |-> "Alpha"], [rust |-> "beta_gamma", name |-> "BetaGamma"],
-                  [rust |-> "delta", name |-> "Delta"], [rust |-> "eps_2", name |-> "Eps2"] >>
+                  [rust |-> "set_point", name |-> "SetPoint"], [rust |-> "eps_2", name |-> "Eps2"] >>
+\* (a property whose name itself starts with "Set": its setter is set_set_point, and "Point" is not a property)
 SignalNames == << [rust |-> "changed_state", name |-> "ChangedState"], [rust |-> "tick", name |-> "Tick"] >>
 
 Pick(seq, n) == seq[(n % Len(seq)) + 1]
